@@ -24,6 +24,16 @@ type Solver struct {
 	log     io.Writer
 	depth   int
 	argv    []string
+	// solver-diff sampling: transcript of the current path and sampled complete scripts
+	transcript  strings.Builder
+	SampleEvery int
+	Samples     []DiffSample
+}
+
+// DiffSample is one complete, self-contained query with the answer of the main solver.
+type DiffSample struct {
+	Script string
+	Answer string
 }
 
 func NewSolver(argv ...string) *Solver {
@@ -69,11 +79,20 @@ func (s *Solver) Send(x string) {
 	if s.log != nil {
 		io.WriteString(s.log, x)
 	}
+	if s.SampleEvery > 0 && s.depth > 0 {
+		s.transcript.WriteString(x)
+	}
 	io.WriteString(s.in, x)
 }
 
-func (s *Solver) Push() { s.Send("(push 1)\n"); s.depth++ }
-func (s *Solver) Pop()  { s.Send("(pop 1)\n"); s.depth-- }
+func (s *Solver) Push() {
+	if s.depth == 0 {
+		s.transcript.Reset()
+	}
+	s.depth++
+	s.Send("(push 1)\n")
+}
+func (s *Solver) Pop() { s.Send("(pop 1)\n"); s.depth-- }
 
 func (s *Solver) readLine() string {
 	for {
@@ -124,6 +143,13 @@ func (s *Solver) Check(extra string, vars []*Term) (string, Witness) {
 	}
 	s.Send("(pop 1)\n")
 	s.Dur += time.Since(t0)
+	if s.SampleEvery > 0 && s.Queries%s.SampleEvery == 0 && len(s.Samples) < 12 && (res == "sat" || res == "unsat") {
+		// the transcript ends with "(push 1)(assert extra)(check-sat)[(get-value ..)](pop 1)": cut after (check-sat)
+		t := s.transcript.String()
+		if i := strings.LastIndex(t, "(check-sat)"); i >= 0 {
+			s.Samples = append(s.Samples, DiffSample{Script: t[:i+len("(check-sat)")] + "\n", Answer: res})
+		}
+	}
 	if res != "sat" && res != "unsat" {
 		s.Unknown++
 		if res == "eof" {
@@ -214,4 +240,43 @@ func defaultSolver() []string {
 	}
 	solverOnce = []string{"z3", "-in"}
 	return solverOnce
+}
+
+// RunDiff re-decides sampled queries with other solvers and reports disagreements.
+func RunDiff(samples []DiffSample) (checked int, disagreements []string) {
+	type alt struct {
+		name string
+		argv []string
+		pre  string
+	}
+	var alts []alt
+	if p, err := exec.LookPath("z3"); err == nil {
+		alts = append(alts, alt{"z3-4.8.12", []string{p, "-in", "-T:20"}, ""})
+	}
+	if p, err := exec.LookPath("cvc5"); err == nil {
+		alts = append(alts, alt{"cvc5", []string{p, "--incremental", "--lang=smt2", "--tlimit=20000"}, "(set-logic ALL)\n"})
+	}
+	for _, sm := range samples {
+		for _, a := range alts {
+			cmd := exec.Command(a.argv[0], a.argv[1:]...)
+			cmd.Stdin = strings.NewReader(a.pre + sm.Script)
+			out, _ := cmd.Output()
+			ans := ""
+			for _, l := range strings.Split(string(out), "\n") {
+				l = strings.TrimSpace(l)
+				if l == "sat" || l == "unsat" || l == "unknown" {
+					ans = l
+				}
+				if strings.HasPrefix(l, "(error") {
+					ans = "error"
+					break
+				}
+			}
+			checked++
+			if (ans == "sat" || ans == "unsat") && ans != sm.Answer {
+				disagreements = append(disagreements, a.name+" says "+ans+" where the main solver said "+sm.Answer)
+			}
+		}
+	}
+	return
 }
